@@ -357,7 +357,7 @@ pub fn run_prop(ctx: &Ctx, sink: &mut Sink) {
     // through parse_args alone (the expression grammar exhaustively at small sizes)
     {
         let alpha: [&str; 9] = ["-true", "-print", "!", "-a", "-o", ",", "(", ")", "-not"];
-        let maxlen = if ctx.thorough { 7 } else { 5 };
+        let maxlen = if ctx.thorough { 6 } else { 5 };
         let mut idx: Vec<usize> = vec![];
         loop {
             // next sequence in length-lexicographic order
